@@ -43,3 +43,20 @@ package couchbase
 //@ ensures.number[C10] forall j int :: 0 <= j && j < len(instances) && *instances[j].ID == self && (forall k int :: 0 <= k && k < j ==> *instances[k].ID != self) ==> (calls(EventBus.Bus.Publish) == 0 ==> old(h.info) != nil && old(h.info.MemberNumber) == j + 1 && old(h.info.TotalMembers) == len(instances))
 //@ ensures.announce_on_change[C10] calls(EventBus.Bus.Publish) <= 1 && (calls(EventBus.Bus.Publish) == 1 ==> arg(EventBus.Bus.Publish, 0, recv) == h.bus && arg(EventBus.Bus.Publish, 0, topic) == helpers.MembershipChangedBusEventName)
 //@ modifies h.lastActiveInstances, calls(EventBus.Bus.Publish)
+
+// The latest notification is the member's number and the group size (C09, C10).
+//@ func (*cbMembership).membershipChangedListener
+//@ params h model
+//@ props C09 C10
+//@ requires h != nil
+//@ ensures.latest_notification_wins[C09,C10] h.info == model
+//@ ensures.first_notification_wakes_the_waiter[C10] old(h.info) == nil ==> dcalls("go:couchbase.(*cbMembership).membershipChangedListener$1") == 1
+//@ ensures.later_notifications_wake_nobody[C10] old(h.info) != nil ==> dcalls("go:couchbase.(*cbMembership).membershipChangedListener$1") == 0
+//@ modifies h.info, calls("go:couchbase.(*cbMembership).membershipChangedListener$1")
+
+//@ func (*cbMembership).GetInfo
+//@ params h
+//@ props C09 C10
+//@ requires h != nil
+//@ ensures.known[C09,C10] old(h.info) != nil ==> result == old(h.info)
+//@ modifies chan(h.infoChan)
